@@ -214,6 +214,9 @@ Definition report_number (pf : bytes -> option Z) (s : sink) (b : bytes) (dbl : 
     | c :: r =>
         let neg := c =? 45 in
         let digits := if (c =? 43) || (c =? 45) then r else b in
+        match digits with
+        | [] => Some (s, jeGeneric)               (* a sign without digits is no number *)
+        | _ =>
         match parse_uint digits 0 with
         | None => Some (s, jeGeneric)
         | Some u =>
@@ -221,6 +224,7 @@ Definition report_number (pf : bytes -> option Z) (s : sink) (b : bytes) (dbl : 
               let '(s1, e) := jvis s (EVal (SNum KUint64 u)) in Some (s1, e)
             else if neg && (u >? 9223372036854775808) then Some (s, jeGeneric)
             else let '(s1, e) := jvis s (EVal (SNum KInt64 (if neg then - u else u))) in Some (s1, e)
+        end
         end
     end.
 
@@ -411,7 +415,7 @@ Definition jfinalize (pf : bytes -> option Z) (p : jparser) (s : sink) : option 
     if jp_cur p =? jNumber then
       match report_number pf s (jp_lit p) (jp_isdbl p) with
       | None => None
-      | Some (s1, e) => if jisnil e then Some (jset_lit (jpop p) [], s1, jpnil, true) else Some (jset_lit p [], s1, e, false)
+      | Some (s1, e) => if jisnil e then Some (jset_lit (jpop p) [], s1, jpnil, true) else Some (p, s1, e, false)
       end
     else Some (p, s, jpnil, true) in
   match r with
